@@ -434,7 +434,9 @@ func cellScenario(check, tier string, seed uint64, run int) *Scenario {
 	p["oracle"] = check
 	p["cells_total"] = len(cells)
 	sched := SchedConfig{Strategy: "fifo"}
-	if check == "C05" || check == "C06" {
+	// (committed openings and shift attacks are built from a FIFO reference run of the same scenario and stay
+	// valid only while the run reproduces that reference: those cells keep FIFO delivery)
+	if (check == "C05" || check == "C06") && !strings.HasPrefix(c.Spec.Kind, "cm:") && !strings.HasPrefix(c.Spec.Kind, "shift:") {
 		// half of the cells of the two checks whose properties quantify over schedules as well run under
 		// another delivery order: everything before Start, or a random order with delivery before Start
 		h := seedFor(seed, check, origRun, "cell-sched")
